@@ -43,7 +43,11 @@ ASSUMPTIONS = [
     "8 printed decimals, coordinates < 100)",
     "a side is identified by its four corner numbers as a set; additionally its written quad must list them in cyclic "
     "order (either sense), because a quad in crossed order is not that side",
-    "positions are compared with 1e-9 absolute (permutations must not change coordinates at all); normals with 1e-9",
+    "positions are compared with 1e-9 absolute (permutations must not change coordinates at all); normals with 1e-9 "
+    "(faces of size 1, 1e-2, 2e-3, 1e-3 with point distances >= 1e-4; warped up to 0.15 of the size, planar, or planar "
+    "with one reflex corner; measured rounding of the unit normal <= 1e-12)",
+    "reorient: the nearest corner is asserted when it wins by 10 %, or by >= 1 % of the face size when that gap is also "
+    ">= 1e4 * eps * distance (reference positions 1e3..1e6 face sizes away); otherwise the call is only counted",
     "edges are identified by their kind (four different kinds per face), so an implementation may copy edge objects",
     "addressing histories never assign two patches or two projections to one side and never put more than two "
     "projection labels on one edge (that is C20's business); a curved edge replaces what was on the edge before, a "
@@ -69,15 +73,22 @@ def newell_normal(p: np.ndarray) -> np.ndarray:
 
 
 def quad_points(case) -> np.ndarray:
-    """general-position quadrilateral from the case parameters"""
+    """general-position quadrilateral from the case parameters.
+    shape: warped (corners up to 0.15 of the size off the plane) | planar | concave (planar, one reflex corner);
+    scale: model size in metres (1, 1e-2, 2e-3, 1e-3: point distances stay >= 1e-4 = 1000 x TOL)"""
     base = np.array([[0, 0, 0], [1, 0, 0], [1, 1, 0], [0, 1, 0]], dtype=float)
     base[:, 0] *= case["sx"]
     base[:, 1] *= case["sy"]
     jit = np.array(case["jit"], dtype=float).reshape(4, 3)
     m = min(case["sx"], case["sy"])
-    base = base + jit * np.array([0.2 * m, 0.2 * m, 0.15 * m])
+    shape = case.get("shape", "warped")
+    base = base + jit * np.array([0.2 * m, 0.2 * m, 0.15 * m if shape == "warped" else 0.0])
+    if shape == "concave":
+        k = case.get("reflex", 0)
+        base[k] = base[k] + 0.7 * (base[(k + 2) % 4] - base[k])  # past the diagonal of the two neighbours
+    scale = case.get("scale", 1.0)
     R = rodrigues(_axis(case["axis"]), case["angle"])
-    return base @ R.T + np.array(case["origin"], dtype=float)
+    return (base * scale) @ R.T + np.array(case["origin"], dtype=float) * min(1.0, 100 * scale)
 
 
 def _axis(v) -> np.ndarray:
@@ -125,6 +136,9 @@ face_geometry = st.fixed_dictionaries({
     "angle": st.floats(-math.pi, math.pi),
     "origin": st.lists(st.floats(-10, 10), min_size=3, max_size=3),
     "kinds": st.permutations(EDGE_KINDS).map(lambda p: list(p)[:4]),
+    "scale": st.sampled_from([1.0, 2e-3, 1e-2, 1e-3, 1.0, 2e-3]),
+    "shape": st.sampled_from(["warped", "warped", "concave", "planar", "warped"]),
+    "reflex": st.sampled_from([0, 1, 2, 3]),
 })
 
 
@@ -138,6 +152,8 @@ def face_op(allowed: List[str]):
         # near corner j (original numbering): p = P_j + frac * dmin_j * u / sqrt(3), frac <= 0.3
         opts.append(st.tuples(st.just("reorient"), st.sampled_from([1, 3, 2, 0]), st.floats(0.0, 0.3), _unit3).map(list))
         opts.append(st.tuples(st.just("reorient-free"), _unit3, st.floats(0.0, 3.0)).map(list))
+        # a reference position far away ("direction"): distance = factor x size of the face
+        opts.append(st.tuples(st.just("reorient-far"), _unit3, st.sampled_from([1e5, 1e3, 1e6, 1e4])).map(list))
     return st.one_of(*opts)
 
 
@@ -199,10 +215,19 @@ def check_face(case, ctx: Ctx) -> None:
                 else:
                     centre = orig.mean(axis=0)
                     size = max(np.linalg.norm(q - centre) for q in orig)
-                    p = centre + np.array(op[1]) * size * op[2]
+                    u = np.array(op[1], dtype=float)
+                    if op[0] == "reorient-far":
+                        u = u / np.linalg.norm(u) if np.linalg.norm(u) > 1e-3 else np.array([0.6, 0.0, 0.8])
+                        ctx.label(f"reorient-far:{op[2]:g}")
+                    p = centre + u * size * op[2]
+                p = np.array(p.tolist(), dtype=float)
                 dist = [float(np.linalg.norm(p - q)) for q in orig]
                 srt = sorted(range(4), key=lambda k: dist[k])
-                if dist[srt[1]] >= 1.1 * dist[srt[0]]:
+                size0 = max(np.linalg.norm(q - orig.mean(axis=0)) for q in orig)
+                gap = dist[srt[1]] - dist[srt[0]]
+                # the nearest corner is asserted when it wins by 10 %, or by 1 % of the face size provided float64 resolves
+                # that difference of two distances with a margin of 1e4 roundings
+                if dist[srt[1]] >= 1.1 * dist[srt[0]] or (gap >= 1e-2 * size0 and gap >= 1e4 * np.finfo(float).eps * dist[srt[3]]):
                     target = srt[0]
                     idx = ids_before.index(target)
                     facts["target_index"] = idx
@@ -280,6 +305,26 @@ def _fixed_face_cases() -> List[dict]:
                     ops.append(["shift", k])
                 ops.append(["reorient", j, 0.1, [0.3, -0.4, 0.2]])
                 out.append({**geo, "ops": ops})
+    # reference positions far away in the four diagonal directions of the face plane (and tilted), at three distances
+    flat = {**geo, "axis": [0.0, 0.0, 1.0], "angle": 0.0}
+    for far in (1e3, 1e5, 1e6):
+        for u in ([1, 1, 0.3], [-1, 1, 0.3], [-1, -1, -0.3], [1, -1, 0.3]):
+            for pre in ([], [["shift", 1]], [["invert"]]):
+                out.append({**flat, "scale": 1.0, "ops": [*pre, ["reorient-far", u, far]]})
+                out.append({**flat, "scale": 1e-3, "ops": [*pre, ["reorient-far", u, far]]})
+    return out
+
+
+def _fixed_small_faces() -> List[dict]:
+    """warped faces of millimetre size and planar concave faces (each corner reflex), every single operation"""
+    geo = {"sx": 1.3, "sy": 0.8, "jit": [0.3, -0.2, 0.9, -0.4, 0.1, -0.8, 0.2, 0.5, 0.7, -0.1, -0.3, -0.9],
+           "axis": [0.3, -0.5, 0.8], "angle": 1.1, "origin": [1.0, -2.0, 0.5], "kinds": ["arc", "spline", "project", "origin"]}
+    out = []
+    for ops in ([["invert"]], [["shift", 1]], [["shift", 2]], [["shift", 3]], [["invert"], ["shift", 1]]):
+        for scale in (1.0, 1e-2, 2e-3, 1e-3):
+            out.append({**geo, "scale": scale, "shape": "warped", "ops": ops})
+        for k in range(4):
+            out.append({**geo, "scale": 1.0, "shape": "concave", "reflex": k, "ops": ops})
     return out
 
 
@@ -691,13 +736,23 @@ def _fixed_op_cases() -> List[dict]:
         calls.append(["add_side_edge", i, "arc", 0.3, 0.2])
         for f in ("bottom", "top"):
             calls.append(["face_add_edge", f, i, "spline", 1.0, 0.2])
-    return [{**geo, "calls": [c]} for c in calls]
+    cases = [{**geo, "calls": [c]} for c in calls]
+    # a side projected with its edges, then one more label on a single edge of it (by corner pair, or through a neighbouring
+    # side): the other edges of the first side must keep their single label
+    for s in SIDES:
+        for e in SIDE_EDGES[s]:
+            a, b = sorted(e)
+            cases.append({**geo, "calls": [["project_side", s, True, False], ["project_edge", b, a]]})
+        for s2 in SIDES:
+            if s2 != s and set(HEX_SIDES[s]) & set(HEX_SIDES[s2]):
+                cases.append({**geo, "calls": [["project_side", s, True, False], ["project_side", s2, True, True]]})
+    return cases
 
 
 CELLS = [
     Cell("C10/face/shift-invert", face_case(["shift", "invert"], 4), check_face, 600, 20000,
          "histories of shift(k in -5..5) / invert(): same 4 points, every edge between its two points, shift keeps the cyclic "
-         "order and the normal, invert flips the normal"),
+         "order and the normal, invert flips the normal", fixed_cases=_fixed_small_faces()),
     Cell("C10/face/reorient", face_case(["reorient"], 2), check_face, 600, 20000,
          "reorient(p): the corner nearest p (margin >= 10 %) becomes the first point, order and normal kept; non-trivial: "
          "nearest corner at index 1 or 3", fixed_cases=_fixed_face_cases()),
